@@ -253,6 +253,10 @@ def check(run):
         vlib.coqchk(run, ["PV.Shard.Props"])
 
 
+AUTO_KEYS = ["data.id", "Data.Id", "DATA.ID", "dAtA.iD", "*.Id"]
+STMT_IDENTS = [("data", "id"), ("DATA", "ID"), ("Data", "iD"), ("public.data", "Id"), ("data", "data.ID")]
+
+
 def check_paths(run, router, keys, quick, samples, distinct):
     evals = 0
     cfgs = []
@@ -262,24 +266,27 @@ def check_paths(run, router, keys, quick, samples, distinct):
     cases, meta = [], []
     for func in ("pg", "sha1"):
         for n in ([5, 12] if quick else [1, 3, 5, 12, 64]):
-            base = {"shards": n, "func": func, "parser": True, "splitting": True, "auto_key": "data.id",
-                    "key_regex": r"/\* sharding_key: (\d+) \*/"}
             oracle = pg_partition if func == "pg" else sha1_rule
-            for k in sub:
+            for ki, k in enumerate(sub):
+                # the configured key and the statement's identifiers in every case spelling: unquoted identifiers fold,
+                # the configured key is compared case-insensitively (validation only strips its quotes)
+                base = {"shards": n, "func": func, "parser": True, "splitting": True, "auto_key": AUTO_KEYS[ki % len(AUTO_KEYS)],
+                        "key_regex": r"/\* sharding_key: (\d+) \*/"}
+                tb, col = STMT_IDENTS[(ki // len(AUTO_KEYS)) % len(STMT_IDENTS)]
                 steps, exp = [], []
                 if k >= 0:
                     steps.append({"op": "command", "sql": "SET SHARDING KEY TO '%d'" % k}); exp.append(("set_key", oracle(k, n)))
                     steps.append({"op": "command", "sql": "/* sharding_key: %d */ SELECT 1" % k}); exp.append(("comment", oracle(k, n)))
-                    steps.append({"op": "route", "sql": "SELECT * FROM data WHERE id = %d" % k}); exp.append(("literal", oracle(k, n)))
-                steps.append({"op": "route", "proto": "P", "sql": "SELECT * FROM data WHERE id = $1"}); exp.append(("parse", None))
+                    steps.append({"op": "route", "sql": "SELECT * FROM %s WHERE %s = %d" % (tb, col, k)}); exp.append(("literal", oracle(k, n)))
+                steps.append({"op": "route", "proto": "P", "sql": "SELECT * FROM %s WHERE %s = $1" % (tb, col)}); exp.append(("parse", None))
                 steps.append({"op": "bind", "hex": bind_msg([str(k).encode()], [])}); exp.append(("bind_text", oracle(k, n)))
-                steps.append({"op": "route", "proto": "P", "sql": "SELECT * FROM data WHERE id = $1"}); exp.append(("parse", None))
+                steps.append({"op": "route", "proto": "P", "sql": "SELECT * FROM %s WHERE %s = $1" % (tb, col)}); exp.append(("parse", None))
                 steps.append({"op": "bind", "hex": bind_msg([struct.pack(">q", k)], [1])}); exp.append(("bind_bin8", oracle(k, n)))
                 if -2**31 <= k < 2**31:
-                    steps.append({"op": "route", "proto": "P", "sql": "SELECT * FROM data WHERE id = $1"}); exp.append(("parse", None))
+                    steps.append({"op": "route", "proto": "P", "sql": "SELECT * FROM %s WHERE %s = $1" % (tb, col)}); exp.append(("parse", None))
                     steps.append({"op": "bind", "hex": bind_msg([struct.pack(">i", k)], [1])}); exp.append(("bind_bin4", oracle(k, n)))
                 if -2**15 <= k < 2**15:
-                    steps.append({"op": "route", "proto": "P", "sql": "SELECT * FROM data WHERE id = $1"}); exp.append(("parse", None))
+                    steps.append({"op": "route", "proto": "P", "sql": "SELECT * FROM %s WHERE %s = $1" % (tb, col)}); exp.append(("parse", None))
                     steps.append({"op": "bind", "hex": bind_msg([struct.pack(">h", k)], [1, ])}); exp.append(("bind_bin2", oracle(k, n)))
                 cases.append({"settings": base, "steps": steps}); meta.append((func, n, k, exp))
     res = RL.run_router(router, cases)
@@ -554,8 +561,8 @@ def check_wire(run, keys, quick, samples, distinct):
         return 0
     wire = bins["wire"]
     nsh = 3
-    def mk_toml(default_shard, lb):
-        opts = {"query_parser_enabled": True, "query_parser_read_write_splitting": True, "automatic_sharding_key": "data.id",
+    def mk_toml(default_shard, lb, akey="data.id"):
+        opts = {"query_parser_enabled": True, "query_parser_read_write_splitting": True, "automatic_sharding_key": akey,
                 "sharding_function": "pg_bigint_hash", "default_role": "any", "primary_reads_enabled": True, "load_balancing_mode": lb}
         if default_shard != "shard_0":
             opts["default_shard"] = default_shard
@@ -568,7 +575,7 @@ def check_wire(run, keys, quick, samples, distinct):
     for t in range(30 if quick else 400):
         # the selected shard must hold whatever the pool does for clients that selected nothing
         dsh = ["shard_0", "random", "random_healthy"][t % 3]
-        toml = mk_toml(dsh, r.choice(["random", "loc"]))
+        toml = mk_toml(dsh, r.choice(["random", "loc"]), ["data.id", "Data.ID", '"data"."id"', '"DATA".Id'][(t // 3) % 4])
         steps = [{"op": "connect", "c": "c1", "params": {"user": "u", "database": "db"}, "password": "pw"}]
         cur = None          # model: sticky selection (Paths.set_shard / SET SHARDING KEY / literal)
         expect = []         # (tag, expected shard or None)
